@@ -203,6 +203,14 @@ Theorem delete_layer_breaks_inv :
 Proof. exact delete_layer_refuted. Qed.
 Print Assumptions delete_layer_breaks_inv.
 
+(** [split_pre] cannot be dropped either: in the repaired source too, a quadrilateral with a neighbour that shares three of
+    its corners (an overlapping column, outside the meshes the property ranges over) is split into halves one of which
+    carries a connection whose two nodes are not both its own *)
+Theorem split_column_overlap_breaks_inv :
+  exists g c n g', Inv g /\ fx_split (fx g) = true /\ split_column g c n = Ok g' /\ ~ S4 g'.
+Proof. exact split_column_overlap_refuted. Qed.
+Print Assumptions split_column_overlap_breaks_inv.
+
 (** ** the hypotheses are met by a non-trivial geometry: two quadrilateral columns sharing a side, two layers *)
 Theorem example_two_columns_consistent : Inv g_two.
 Proof. exact g_two_inv. Qed.
